@@ -18,5 +18,17 @@ let handle cmd args : string option =
         let filled = List.filter (fun e -> not (tag_is_zero (c (zi e)))) els in
         ok ^ ":" ^ String.concat "," (List.map string_of_int filled)) (prefixes [] cs) in
     Some (String.concat " " toks)
+  | "sfhist", _ :: ops ->
+    (* several reflections on one calculator: R<world> installs reflection + addends number <world> (and empties the cache),
+       G<el>:<ch> asks for a form factor; per G the harness reports T when the value is that of (el, ch) in the world
+       installed last. The symbolic world value is tag (el + 1000 * world) ch. *)
+    let parse w = if w.[0] = 'R' then Reset (zi (int_of_string (String.sub w 1 (String.length w - 1))))
+      else (match String.split_on_char ':' (String.sub w 1 (String.length w - 1)) with
+          | [e; c] -> Get (zi (int_of_string e), zi (int_of_string c)) | _ -> failwith "sfhist") in
+    let cops = List.map parse ops in
+    let wval w e c = tag (Z.add e (Z.mul (zi 1000) w)) c in
+    let got = crun Z0 tag_is_zero wval (Z0, empty Z0) cops and want = cspec wval Z0 cops in
+    Some (String.concat " " (List.filter_map (fun x -> x)
+      (List.map2 (fun g w -> match g, w with Some a, Some b -> Some (if a = b then "T" else "F") | _ -> None) got want)))
   | _ -> None
 let () = serve handle
